@@ -12,6 +12,11 @@ fn main() {
         "C05" => main_for::<props::client::C05>(rest),
         "C06" => main_for::<props::client::C06>(rest),
         "C14" => main_for::<props::client::C14>(rest),
+        "C02" => main_for::<props::shm::C02>(rest),
+        "C03" => main_for::<props::shm::C03>(rest),
+        "C04" => main_for::<props::shm::C04>(rest),
+        "C11" => main_for::<props::shm::C11>(rest),
+        "C18" => main_for::<props::shm::C18>(rest),
         "C07" => main_for::<props::daemon::C07>(rest),
         "C08" => main_for::<props::daemon::C08>(rest),
         "C09" => main_for::<props::daemon::C09>(rest),
